@@ -117,7 +117,8 @@ var rsFragment = []rsPat{
 	{q(`doc, componentPath, err := loader.resolveComponent(doc, ref, documentPath, &resolved)`), "component:local"},
 	{q(`if err != nil { return err }`), "fail"},
 	{q(`if doc, documentPath, err = loader.resolveComponent(doc, ref, documentPath, &resolved); err != nil { if err == errMUST‹K› { return nil } return }`), "component:switch"},
-	{`if err :?= loader\.resolve‹K›Ref\(doc, &resolved, componentPath(, visited)?\); err != nil \{ if err == errMUST‹K› \{ return nil \} return err \}`, "recurse:swallowEmpty"},
+	{`if err :?= loader\.resolve‹K›Ref\(doc, &resolved, componentPath(, visited)?\); err != nil \{ if err == errMUST‹K› && resolved\.isEmpty\(\) \{ return nil \} return err \}`, "recurse:swallowEmptyTarget"},
+	{`if err :?= loader\.resolve‹K›Ref\(doc, &resolved, componentPath(, visited)?\); err != nil \{ if err == errMUST‹K› \{ return nil \} return err \}`, "recurse:swallowAnyEmptyBelow"},
 	{q(`if resolved.Ref != "" { if err = loader.resolve‹K›Ref(doc, &resolved, documentPath); err != nil { return } }`), "recurse:ifRef"},
 	{q(`‹C›.Value = resolved.Value`), "setValue"},
 	{q(`*‹C› = resolved`), "setValue"},
@@ -129,7 +130,7 @@ var rsFragment = []rsPat{
 var rsFrozenText = map[string]bool{"unescapeRefString": true, "isSingleRefElement": true}
 var rsFrozenHash = map[string]bool{"resolveComponent": true, "drillIntoField": true, "resolveRefAndDocument": true, "resolveRef": true,
 	"resolveRefPath": true, "resolvePathWithRef": true, "resolvePath": true, "join": true, "loadSingleElementFromURI": true,
-	"loadFromURIInternal": true, "loadFromDataWithPathInternal": true, "visitRef": true, "unvisitRef": true, "shouldVisitRef": true}
+	"loadFromURIInternal": true, "loadFromDataWithPathInternal": true, "visitRef": true, "unvisitRef": true, "shouldVisitRef": true, "resetVisitedPathItemRefs": true}
 
 func rsIsResolverName(n string) bool {
 	if rsFrozenText[n] || rsFrozenHash[n] {
